@@ -916,8 +916,10 @@ outer:
 				if rn == '{' {
 					buf.Reset()
 					for {
-						rn, _, _ := r.ReadRune()
-						if rn == '}' {
+						rn, _, err := r.ReadRune()
+						if err != nil || rn == '}' {
+							// (an unterminated \p{Name is reported by the grammar rule
+							// UnicodeClassEscape; do not loop forever on it here)
 							break
 						}
 						buf.WriteRune(rn)
